@@ -32,7 +32,7 @@ def plan(prop, tier):
                     rule="histories fit/sweep/save/(restart)/load/sweep/resave per family and profile; distinct = distinct (abstract history, family, profile)",
                     extra=["document equality is JSON-value equality", "the formula clause of C01 is decided by the DailyCurve module (C11/C12 checks), not here"])
     if prop == "C02":
-        return dict(scen=[("pure", fam + extra_prof), ("inter", fam if not q else fam[:3]), ("free", fam if not q else fam[1:3])], per=(6 if q else 16),
+        return dict(scen=[("pure", fam + extra_prof + ([("caltrack", "caltrack")] if q else [])), ("inter", fam if not q else fam[:3]), ("free", fam if not q else fam[1:3])], per=(6 if q else 16),
                     rule="histories of 4-6 predicts over reports of five spans with/without observed, interleaved fits on a second slot, user "
                          "overwriting frames handed out; whole-state projection compared after every call" + "; plus free-form histories (template T_free: every operation allowed at every position, 300 behaviours per family from tlc -simulate with the invariants checked along them, depth 12) chosen by feature cover",
                     extra=[])
